@@ -336,7 +336,7 @@ var voteAlphabet = []int64{0, 1, 3, 100000000, 1<<51 + 1}
 // program hash per elected CRC arbiter (0.4 ms each: public key decompression).
 var voteAlphabetSmall = []int64{0, 1, 1<<51 + 1}
 var voteAlphabetMid = []int64{0, 1, 100000000, 1<<51 + 1} // same shapes, thorough tier
-var rewardAlphabet = []int64{0, 1, 2, 3, 7, 100000001, 1<<51 + 1}
+var rewardAlphabet = []int64{0, 1, 2, 3, 7, 100000001, 100000000000, 130000000000, 1000000000000, 1<<51 + 1}
 
 // rewardBeyond (thorough tier, informational only): rewards beyond the supply, where float64
 // arithmetic is no longer exact.
